@@ -2010,6 +2010,7 @@ def clean_dictionary(ddct):
         ("language", str, "a string"),
         ("namespace", str, "a string"),
         ("decl", str, "a string"),
+        ("cpp_if", str, "a string"),
         ("options", dict, "a dictionary"),
         ("format", dict, "a dictionary"),
         ("attrs", dict, "a dictionary"),
@@ -2031,6 +2032,11 @@ def clean_dictionary(ddct):
             if key != "__line__" and not isinstance(value, dict):
                 raise RuntimeError(
                     "attrs for argument {} must be a dictionary".format(key))
+    if "fstatements" in ddct and ddct["fstatements"]:
+        for key, value in ddct["fstatements"].items():
+            if key != "__line__" and not isinstance(value, dict):
+                raise RuntimeError(
+                    "fstatements for {} must be a dictionary".format(key))
 
     if "default_arg_suffix" in ddct:
         default_arg_suffix = ddct["default_arg_suffix"]
@@ -2164,7 +2170,7 @@ def listify(entry, names):
 #              else:
 #                  new[key] = [ value ]
                 new[key] = value.split("\n")
-                if value[-1] == "\n":
+                if value.endswith("\n"):
                     new[key].pop()
             elif isinstance(value, list):
                 new[key] = ["" if v is None else v for v in value]
